@@ -122,6 +122,8 @@ val uncache : node -> node
 
 val hashed : node -> bool
 
+val store : bool -> bytes -> bytes option
+
 val kget : bytes -> (bytes * nat) list -> nat option
 
 val kset : bytes -> nat -> (bytes * nat) list -> (bytes * nat) list
@@ -157,27 +159,30 @@ val compute :
   nat -> heap -> (heap * bytes) res
 
 val update_hash :
-  (bytes -> entry list -> bytes) -> nat -> bool -> nat -> heap ->
+  (bytes -> entry list -> bytes) -> bool -> nat -> bool -> nat -> heap ->
   (heap * bytes) res
 
 val read_hash :
-  (bytes -> entry list -> bytes) -> nat -> heap -> (heap * bytes) res
+  (bytes -> entry list -> bytes) -> bool -> nat -> heap -> (heap * bytes) res
 
 val force_hash :
-  (bytes -> entry list -> bytes) -> nat -> heap -> (heap * bytes) res
+  (bytes -> entry list -> bytes) -> bool -> nat -> heap -> (heap * bytes) res
 
 val entries :
-  (bytes -> entry list -> bytes) -> nat -> heap -> (heap * entry list) res
+  (bytes -> entry list -> bytes) -> bool -> nat -> heap -> (heap * entry
+  list) res
 
 val to_model :
-  (bytes -> entry list -> bytes) -> nat -> heap -> (heap * entry list) res
+  (bytes -> entry list -> bytes) -> bool -> nat -> heap -> (heap * entry
+  list) res
 
 val collect_node :
-  (bytes -> entry list -> bytes) -> nat -> heap -> (heap * nat list) res
+  (bytes -> entry list -> bytes) -> bool -> nat -> heap -> (heap * nat list)
+  res
 
 val collect :
-  (bytes -> entry list -> bytes) -> nat -> nat -> heap -> (heap * nat list)
-  res
+  (bytes -> entry list -> bytes) -> bool -> nat -> nat -> heap -> (heap * nat
+  list) res
 
 val reset_collect : nat -> nat -> heap -> heap res
 
@@ -236,7 +241,9 @@ val of_res : heap -> (heap * 'a1) res -> ('a1 -> out) -> heap * out
 
 val of_mut : (heap * err option) -> heap * out
 
-val step : (bytes -> entry list -> bytes) -> bool -> heap -> op -> heap * out
+val step :
+  (bytes -> entry list -> bytes) -> bool -> bool -> heap -> op -> heap * out
 
 val run :
-  (bytes -> entry list -> bytes) -> bool -> heap -> op list -> heap * out list
+  (bytes -> entry list -> bytes) -> bool -> bool -> heap -> op list ->
+  heap * out list
